@@ -9,6 +9,7 @@ package c06
 
 import (
 	"encoding/json"
+	"errors"
 	"fmt"
 	"strings"
 
@@ -69,6 +70,8 @@ type opDef struct {
 	// bc: batch count named by the request (0 = none named; -1 = an explicit 0). The rule counts entries, not
 	// tokens: the decision and the unit taken are the same whatever the batch count is
 	bc int
+	// exitErr: the entry is exited after an exit handler that returns an error was registered on it
+	exitErr bool
 }
 
 func (o opDef) String() string {
@@ -89,6 +92,9 @@ func (o opDef) String() string {
 			return fmt.Sprintf("E(%s,%q,batch=%d)", o.res, o.val, map[bool]int{true: 0, false: o.bc}[o.bc < 0])
 		}
 		return fmt.Sprintf("E(%s,%q)", o.res, o.val)
+	}
+	if o.exitErr {
+		return fmt.Sprintf("X(%d,failing-exit-handler)", o.slot)
 	}
 	return fmt.Sprintf("X(%d)", o.slot)
 }
@@ -304,6 +310,9 @@ func (s *scen) Apply(i int) (string, string) {
 		return o.String(), s.invariants(o)
 	}
 	if !o.enter {
+		if o.exitErr {
+			s.slots[o.slot].e.WhenExit(func(*base.SentinelEntry, *base.EntryContext) error { return errors.New("exit handler failed") })
+		}
 		s.slots[o.slot].e.Exit()
 		s.slots[o.slot] = nil
 		return o.String(), s.invariants(o)
@@ -477,6 +486,7 @@ func mkOps() []opDef {
 		ops = append(ops, opDef{slot: k})
 	}
 	ops = append(ops, opDef{miss: true})
+	ops = append(ops, opDef{slot: 0, exitErr: true})
 	return ops
 }
 
